@@ -289,3 +289,47 @@ def gen_cradle_scene(rng, common_eN=None):
     scene["common_eN"] = eN
     scene["cradle"] = True
     return scene
+
+
+def gen_rod_scene(rng, conservative=False, allow_body=True):
+    """A Cosserat rod (any formulation) in a dynamic scene: clamped / hinged at one end to the origin,
+    a (moving) frame or a rigid body, optionally carrying a rigid body at its tip; tip loads; gravity-like
+    line load replaced by tip forces (the rod's own weight needs a distributed force)."""
+    from .rods import gen_rod_spec
+
+    spec = gen_rod_spec(rng)
+    L = spec["L"]
+    spec["nel"] = int(rng.integers(1, 3))
+    # line density of order one so that the bending / axial frequencies stay moderate
+    spec["rho"] = float(rng.uniform(0.5, 3.0) * 2000.0 / L**2)
+    scene = {"t0": 0.0, "bodies": [], "frames": [], "joints": [], "tpis": [], "laws": [], "actuators": [], "forces": [], "contacts": [], "rods": []}
+    r0 = rng.uniform(-0.3, 0.3, 3)
+    p0 = rot.rand_quat(rng)
+    scene["rods"].append({"spec": spec, "r0": r0.tolist(), "p0": p0.tolist()})
+    A0 = rot.quat_to_mat(p0)
+    x = rng.random()
+    base = "origin"
+    if not conservative and x < 0.25:
+        motion = {"amp": rng.uniform(-0.05, 0.05, 3).tolist(), "w": float(rng.uniform(1, 4)), "axis": rng.normal(size=3).tolist(), "alpha": float(rng.uniform(0, 0.2))}
+        scene["frames"].append({"r": r0.tolist(), "p": rot.rand_quat(rng).tolist(), "motion": motion})
+        base = ["frame", 0]
+    ty = str(rng.choice(["rigid", "rigid", "spherical", "revolute"]))
+    jt = {"type": ty, "a": base, "b": ["rod", 0, 0.0], "axis": int(rng.integers(3)), "rJ": r0.tolist(), "pJ": p0.tolist()}
+    if ty == "revolute":
+        jt["angle0"] = 0.0
+    scene["joints"].append(jt)
+    tip = r0 + A0[:, 0] * L
+    if allow_body and rng.random() < 0.4:
+        b = gen_body(rng, tip, kind="rigid", spread=0.1, speed=0.0)
+        b["m"] = float(rng.uniform(0.2, 1.5))
+        b["v"] = [0.0, 0.0, 0.0]
+        b["w"] = [0.0, 0.0, 0.0]
+        scene["bodies"].append(b)
+        scene["joints"].append({"type": str(rng.choice(["rigid", "spherical"])), "a": ["rod", 0, 1.0], "b": ["body", 0], "axis": 0, "rJ": tip.tolist(), "pJ": p0.tolist()})
+        if rng.random() < 0.7:
+            scene["gravity"] = [0.0, 0.0, -9.81 * float(rng.uniform(0.05, 0.3))]
+    stiff = min(spec["Fi"]) / L**2
+    scene["forces"].append({"type": "force" if conservative else str(rng.choice(["force", "b_force"])), "rod": 0, "xi": 1.0, "vec": (rng.normal(size=3) * stiff * 0.5).tolist(), "time": "const" if conservative else str(rng.choice(["const", "sin"])), "w": float(rng.uniform(1, 4))})
+    if not conservative and rng.random() < 0.4:
+        scene["forces"].append({"type": str(rng.choice(["moment", "b_moment"])), "rod": 0, "xi": float(rng.choice([0.5, 1.0])), "vec": (rng.normal(size=3) * min(spec["Fi"]) / L * 0.3).tolist(), "time": "const", "w": 1.0})
+    return scene
